@@ -31,6 +31,7 @@ type LogPlan struct {
 	Shutdown2     bool      `json:"shutdown2,omitempty"` // a second goroutine calls Shutdown at the same time
 	PreStart      int       `json:"pre_start,omitempty"`
 	InitLevel     int       `json:"init_level"`
+	Fmt           bool      `json:"fmt,omitempty"` // log through the formatting variants
 }
 
 // LogOp is one producer operation.
@@ -58,6 +59,7 @@ func (H) Reset() { log.VerifSimReset() }
 
 func (H) Generate(prop string, rng *rand.Rand, tier string) any {
 	p := &LogPlan{Sched: rng.IntN(2) == 0, Trigger: -1, ShutdownAfter: -1, InitLevel: 1 + rng.IntN(4)}
+	defer func() { p.Fmt = rng.IntN(2) == 0 }()
 	np := 1 + rng.IntN(8)
 	budget := []int{30, 120, 600, 3000}[rng.IntN(4)]
 	if tier != "thorough" && budget > 1500 {
@@ -208,11 +210,32 @@ type state struct {
 	shutReturned               bool
 }
 
+// useFmt: this run logs through the formatting variants (Infof, tracer.Warningf, ...)
+var useFmt bool
+
 func logAt(pkg, sev int, msg string) {
-	if pkg == 0 {
+	switch {
+	case pkg == 0 && useFmt:
+		pkga.LogF(sev, msg)
+	case pkg == 0:
 		pkga.Log(sev, msg)
-	} else {
+	case useFmt:
+		pkgb.LogF(sev, msg)
+	default:
 		pkgb.Log(sev, msg)
+	}
+}
+
+func tlogAt(pkg int, tr *log.ContextTracer, sev int, msg string) {
+	switch {
+	case pkg == 0 && useFmt:
+		pkga.TLogF(tr, sev, msg)
+	case pkg == 0:
+		pkga.TLog(tr, sev, msg)
+	case useFmt:
+		pkgb.TLogF(tr, sev, msg)
+	default:
+		pkgb.TLog(tr, sev, msg)
 	}
 }
 
@@ -229,6 +252,10 @@ func (H) Execute(prop string, plan any, rc *simkit.RunCtx) {
 	s := &state{p: p, rc: rc}
 	rc.Data = s
 	s.init = levelState{Global: p.InitLevel}
+	useFmt = p.Fmt
+	if p.Fmt {
+		rc.Probe("formatting-variants")
+	}
 	log.SetLogLevel(log.Severity(p.InitLevel))
 	delay := sleepLadder[p.SlowAdapter]
 	log.SetAdapter(log.AdapterFunc(func(msg log.Message, duplicates uint64) {
@@ -289,11 +316,7 @@ func (H) Execute(prop string, plan any, rc *simkit.RunCtx) {
 						for k := 0; k < op.N; k++ {
 							c := &callRec{Prod: pi, Op: oi, Payload: payload, Sev: op.Sev, Pkg: op.Pkg, Inv: simrt.Seq()}
 							s.calls = append(s.calls, c)
-							if op.Pkg == 0 {
-								pkga.TLog(nil, op.Sev, payload)
-							} else {
-								pkgb.TLog(nil, op.Sev, payload)
-							}
+							tlogAt(op.Pkg, nil, op.Sev, payload)
 							c.Ret, c.Returned = simrt.Seq(), true
 						}
 						rc.Probe("tracer-disabled")
@@ -325,7 +348,7 @@ func (H) Execute(prop string, plan any, rc *simkit.RunCtx) {
 								sev, tr := 1+k%6, tr
 								go func() {
 									defer func() { helpers <- struct{}{} }()
-									pkga.TLog(tr, sev, l)
+									tlogAt(0, tr, sev, l)
 								}()
 							}
 							for k := 0; k < op.N-1+round; k++ {
@@ -337,10 +360,10 @@ func (H) Execute(prop string, plan any, rc *simkit.RunCtx) {
 							for k := 0; k < op.N-1+round; k++ {
 								l := fmt.Sprintf("%s-t%d.%d", payload, round, k)
 								lines = append(lines, l)
-								pkga.TLog(tr, 1+k%6, l)
+								tlogAt(0, tr, 1+k%6, l)
 							}
 						}
-						pkga.TLog(tr, op.Sev, payload)
+						tlogAt(0, tr, op.Sev, payload)
 						c := &callRec{Prod: pi, Op: oi, Payload: payload, Sev: op.Sev, Pkg: op.Pkg, Inv: simrt.Seq(), Tracer: lines, IsSubmit: true, AnyOrder: op.Shared}
 						if lines == nil {
 							c.Tracer = []string{}
